@@ -2,6 +2,7 @@ import Enc.Lemmas.Proto
 import Enc.Lemmas.ProtoVarint
 import Enc.Lemmas.ProtoRoundTrip
 import Enc.Lemmas.ProtoMap
+import Enc.Lemmas.ProtoDepth
 /-!
 # C03 — proto: Unmarshal(Marshal(v)) == v and Size(v) == len(Marshal(v))
 
@@ -53,26 +54,34 @@ example : encode (.struct (.cons 1 false false false .int32 (.cons 2 false true 
 
 Universe `tyOK` (see Props/C12): messages with scalar fields of every kind and tag, nested messages, optional `*T` and
 repeated `[]T` fields, field numbers 1…65535 pairwise distinct; `hasType`: well-typed values in range. Outside it: maps,
-byte arrays, `[]*T`, `**T`, named types, RawMessage (differential only) and the known-finding shapes. -/
+byte arrays, `[]*T`, `**T`, named types, RawMessage (differential only) and the known-finding shapes.
+
+`hdep` (new with commit b70a382, `proto.maxDepth`): the message type is at most 10000 messages high (`Codec.nesting`: messages,
+repeated elements and map entries count, pointers do not). It is decidable, holds for every type one can write down, and
+is NECESSARY: a value of a type 10001 messages high is marshalled without complaint and refused by `Unmarshal`
+(`Props.C07.depth_limit`; harness op `proto.deepr 10001`). Under it `unmarshal` is the decoder the proofs were written for
+(`Props.C07.limit_invisible_below`). -/
 
 open Lemmas.ProtoWire Lemmas.ProtoRoundTrip in
 /-- **MAIN (round trip, scalar messages).** The model's own decoder inverts the model's encoder, literally — also when
 every field is zero and nothing is written. -/
 theorem unmarshal_marshal (fs : Fields) (v : Val)
     (hty : tyOK (.struct fs) = true) (hpl : plainTy (.struct fs) = true) (hv : hasType (.struct fs) v = true)
-    (hlen : (marshal (.struct fs) v).length < 2 ^ 64) :
-    unmarshal (.struct fs) (marshal (.struct fs) v) = .ok v :=
-  Lemmas.ProtoRoundTrip.unmarshal_marshal_scalar fs v hty hpl hv hlen
+    (hlen : (marshal (.struct fs) v).length < 2 ^ 64) (hdep : Codec.nesting (codecOf (.struct fs)) ≤ Gen.c_proto_maxDepth) :
+    unmarshal (.struct fs) (marshal (.struct fs) v) = .ok v := by
+  rw [Lemmas.ProtoDepth.unmarshal_eq_unmarshalU _ _ hdep]
+  exact Lemmas.ProtoRoundTrip.unmarshal_marshal_scalar fs v hty hpl hv hlen
 
 open Lemmas.ProtoWire Lemmas.ProtoRoundTrip in
 /-- … and with optional and repeated fields, up to the nil-versus-empty normal form; `noEmptyPtr` excludes exactly the
 known finding "a pointer whose pointee encodes to zero bytes comes back nil" -/
 theorem unmarshal_marshal_partial (fs : Fields) (v : Val)
     (hty : tyOK (.struct fs) = true) (hv : hasType (.struct fs) v = true) (hne : noEmptyPtr (.struct fs) v = true)
-    (hlen : (marshal (.struct fs) v).length < 2 ^ 64) :
+    (hlen : (marshal (.struct fs) v).length < 2 ^ 64) (hdep : Codec.nesting (codecOf (.struct fs)) ≤ Gen.c_proto_maxDepth) :
     ∃ v', unmarshal (.struct fs) (marshal (.struct fs) v) = .ok v'
-      ∧ Spec.Protobuf.canonical (.struct fs) v' = Spec.Protobuf.canonical (.struct fs) v :=
-  Lemmas.ProtoRoundTrip.unmarshal_marshal_partial fs v hty hv hne hlen
+      ∧ Spec.Protobuf.canonical (.struct fs) v' = Spec.Protobuf.canonical (.struct fs) v := by
+  rw [Lemmas.ProtoDepth.unmarshal_eq_unmarshalU _ _ hdep]
+  exact Lemmas.ProtoRoundTrip.unmarshal_marshal_partial fs v hty hv hne hlen
 
 open Lemmas.ProtoWire Lemmas.ProtoMap in
 /-- … and with map fields (`map[K]V`, any key kind protobuf allows, scalar / message / pointer values) anywhere in the
@@ -82,16 +91,21 @@ known finding proto-empty-map-marker (`ProtoMapFindings` shows the theorem fails
 Go map guarantees. -/
 theorem unmarshal_marshal_map_partial (fs : Fields) (v : Val)
     (hty : tyOKM (.struct fs) = true) (hv : hasTypeM (.struct fs) v = true) (hne : valOKM (.struct fs) v = true)
-    (hlen : (marshal (.struct fs) v).length < 2 ^ 64) :
+    (hlen : (marshal (.struct fs) v).length < 2 ^ 64) (hdep : Codec.nesting (codecOf (.struct fs)) ≤ Gen.c_proto_maxDepth) :
     ∃ v', unmarshal (.struct fs) (marshal (.struct fs) v) = .ok v'
-      ∧ Spec.Protobuf.canonical (.struct fs) v' = Spec.Protobuf.canonical (.struct fs) v :=
-  Lemmas.ProtoMap.unmarshal_marshal_map_partial fs v hty hv hne hlen
+      ∧ Spec.Protobuf.canonical (.struct fs) v' = Spec.Protobuf.canonical (.struct fs) v := by
+  rw [Lemmas.ProtoDepth.unmarshal_eq_unmarshalU _ _ hdep]
+  exact Lemmas.ProtoMap.unmarshal_marshal_map_partial fs v hty hv hne hlen
 
 open Lemmas.ProtoWire Lemmas.ProtoMap in
 /-- the hypotheses are satisfiable by a concrete message with map fields -/
 example : tyOKM (.struct Lemmas.ProtoMap.Findings.exMFields) = true
     ∧ hasTypeM (.struct Lemmas.ProtoMap.Findings.exMFields) (.struct Lemmas.ProtoMap.Findings.exMVals) = true
-    ∧ valOKM (.struct Lemmas.ProtoMap.Findings.exMFields) (.struct Lemmas.ProtoMap.Findings.exMVals) = true :=
-  ⟨Lemmas.ProtoMap.Findings.exM_ty, Lemmas.ProtoMap.Findings.exM_val, Lemmas.ProtoMap.Findings.exM_ok⟩
+    ∧ valOKM (.struct Lemmas.ProtoMap.Findings.exMFields) (.struct Lemmas.ProtoMap.Findings.exMVals) = true
+    ∧ Codec.nesting (codecOf (.struct Lemmas.ProtoMap.Findings.exMFields)) ≤ Gen.c_proto_maxDepth :=
+  ⟨Lemmas.ProtoMap.Findings.exM_ty, Lemmas.ProtoMap.Findings.exM_val, Lemmas.ProtoMap.Findings.exM_ok, by
+    have : codecOf (.struct Lemmas.ProtoMap.Findings.exMFields) = .struct (fieldsOf 1 Lemmas.ProtoMap.Findings.exMFields) := by
+      simp [codecOf]
+    rw [this, Lemmas.ProtoMap.Findings.exM_codec]; decide⟩
 
 end Enc.Props.C03
